@@ -4,8 +4,10 @@
 // The real engine (reached through the verif-tagged bridge bitswap/server/verifbridge) runs
 // inside a testing/synctest bubble with one task worker. A generated script of incoming
 // want-list messages from 1-3 peers, blockstore additions (+NotifyNewBlocks) / removals,
-// take-next-envelope (+MessageSent +Sent, exactly what server.taskWorker does), clock ticks
-// and PeerDisconnected is executed step by step; after every step the bubble is brought to
+// take-next-envelope, acknowledgements (MessageSent, then Sent - what server.taskWorker does
+// with an envelope; at once with the take, or as separate later steps with incoming messages
+// in between, since the server handles those on other goroutines), clock ticks and
+// PeerDisconnected is executed step by step; after every step the bubble is brought to
 // quiescence (synctest.Wait), so every envelope is built in a known model state.
 package c36
 
@@ -62,11 +64,21 @@ type Ent struct {
 }
 
 type Op struct {
-	Kind string `json:"kind"` // msg | add | remove | take | disconnect | tick
+	Kind string `json:"kind"` // msg | add | remove | take | ack | disconnect | tick
 	Peer int    `json:"peer,omitempty"`
 	Full bool   `json:"full,omitempty"`
 	Ents []Ent  `json:"ents,omitempty"`
 	Cids []int  `json:"cids,omitempty"`
+	// take: what the network side does with the envelope this take yields. 0: MessageSent and
+	// Sent at once; 1: both later (the envelope has been built by the engine's task worker but
+	// the server worker has not yet recorded it - incoming messages are handled on other
+	// goroutines and can come in between); 2: MessageSent at once, Sent later (what
+	// server.taskWorker does while network.SendMessage is in progress)
+	Hold int `json:"hold,omitempty"`
+	// ack: advance held envelope number Idx (mod the number held) by one phase (MessageSent,
+	// then Sent), or by both when Both
+	Idx  int  `json:"idx,omitempty"`
+	Both bool `json:"both,omitempty"`
 }
 
 type Case struct {
@@ -304,9 +316,92 @@ func gen(t *rapid.T) Case {
 		fresh[pi] = false
 		return true
 	}
+	holdMode := func(label string) int {
+		return rapid.SampledFrom([]int{0, 0, 1, 2}).Draw(t, label)
+	}
+	// race: the shape in which taking an envelope and acknowledging it are not one atomic
+	// step, which independent random ops reach only rarely for one and the same CID: a request
+	// for one CID, the answer taken but held back (MessageSent and/or Sent outstanding), then
+	// follow-up traffic about that same CID (re-request with the other / the same want type,
+	// cancel, block churn, another take) before and after the acknowledgements.
+	race := func() bool {
+		pi := rapid.IntRange(0, c.NPeers-1).Draw(t, "rpeer")
+		var cand []int
+		for _, ci := range normal {
+			if c.Cfg.Filter > 0 && (pi+ci)%c.Cfg.Filter == 0 {
+				continue
+			}
+			cand = append(cand, ci)
+		}
+		if len(cand) == 0 {
+			return false
+		}
+		ci := cand[rapid.IntRange(0, len(cand)-1).Draw(t, "rcid")]
+		prio := rapid.SampledFrom(prios).Draw(t, "rprio")
+		var seq []Op
+		if !gstore[ci] && rapid.IntRange(0, 3).Draw(t, "rpresent") != 0 {
+			seq = append(seq, Op{Kind: "add", Cids: []int{ci}})
+		}
+		have := rapid.IntRange(0, 2).Draw(t, "rhave") != 0
+		want := func(h bool) Op {
+			return Op{Kind: "msg", Peer: pi, Ents: []Ent{{Cid: ci, Prio: prio, Have: h, SendDH: rapid.Bool().Draw(t, "rdh")}}}
+		}
+		first := want(have)
+		first.Full = fresh[pi] && rapid.Bool().Draw(t, "rfull")
+		fresh[pi] = false
+		hot = append(hot, ci)
+		takeFirst := rapid.IntRange(0, 3).Draw(t, "rtakefirst") == 0
+		hold := Op{Kind: "take", Hold: rapid.SampledFrom([]int{1, 1, 2}).Draw(t, "rhold")}
+		if takeFirst {
+			// the worker is already waiting for work when the request arrives
+			seq = append(seq, hold, first)
+		} else {
+			seq = append(seq, first, hold)
+		}
+		follow := func(label string, wCancel int) {
+			n := rapid.IntRange(0, 2).Draw(t, label+"n")
+			for j := 0; j < n; j++ {
+				switch k := rapid.IntRange(0, 7+wCancel).Draw(t, label); {
+				case k < 3:
+					seq = append(seq, want(!have)) // the other want type (upgrade / downgrade)
+				case k < 4:
+					seq = append(seq, want(have))
+				case k < 5:
+					seq = append(seq, Op{Kind: "remove", Cids: []int{ci}})
+				case k < 6:
+					seq = append(seq, Op{Kind: "add", Cids: []int{ci}})
+				case k < 7:
+					seq = append(seq, Op{Kind: "take", Hold: holdMode(label + "hold")})
+				case k < 8:
+					seq = append(seq, Op{Kind: "tick"})
+				default:
+					seq = append(seq, Op{Kind: "msg", Peer: pi, Ents: []Ent{{Cid: ci, Cancel: true}}})
+				}
+			}
+		}
+		follow("rmid", 2)
+		seq = append(seq, Op{Kind: "ack", Both: rapid.Bool().Draw(t, "rboth")})
+		follow("rpost", 4)
+		seq = append(seq, Op{Kind: "ack", Idx: rapid.IntRange(0, 1).Draw(t, "ridx")})
+		for _, op := range seq {
+			track(op)
+			c.Ops = append(c.Ops, op)
+		}
+		return true
+	}
 	for i := 0; i < nops; i++ {
 		var op Op
-		k := rapid.IntRange(0, 21).Draw(t, "kind")
+		k := rapid.IntRange(0, 25).Draw(t, "kind")
+		if k >= 24 {
+			c.Ops = append(c.Ops, Op{Kind: "ack", Idx: rapid.IntRange(0, 2).Draw(t, "ackidx"), Both: rapid.Bool().Draw(t, "ackboth")})
+			continue
+		}
+		if k >= 22 {
+			if race() {
+				continue
+			}
+			k = 0
+		}
 		if k >= 20 {
 			if burst() {
 				continue
@@ -342,6 +437,7 @@ func gen(t *rapid.T) Case {
 			}
 		case k < 14:
 			op.Kind = "take"
+			op.Hold = holdMode("hold")
 		case k < 16:
 			op.Kind = "add"
 			n := rapid.IntRange(1, 3).Draw(t, "nadd")
@@ -403,6 +499,25 @@ type mwant struct {
 	maybeShed  bool // the task for the latest request/notification may have been dropped by the queue bound
 	ansPos     bool // a HAVE went out since the block last became present / the period began
 	ansNeg     bool // a DONT_HAVE went out in this period
+	seq        int  // number of requests of this period (to tell whether an in-flight answer is older than the latest request)
+	// raced: a task for this want was pushed while an envelope for the peer was in flight that
+	// may hold an active task for the same CID; the queue skips a pushed task that adds nothing
+	// to an active one, the answer in flight then stands for it (not required to be answered again)
+	raced bool
+}
+
+// heldEnv is an envelope the network side has taken but not yet completely acknowledged.
+type heldEnv struct {
+	env     *vb.Envelope
+	pi      int
+	msgSent bool // MessageSent has been called
+	blks    []int
+	haves   []int
+	// the model want each block / HAVE answered, and its request count at build time
+	wants map[int]*mwant
+	seqs  map[int]int
+	// topics that may be active tasks of this envelope (popped with it, not yet TasksDone)
+	active map[int]bool
 }
 
 type harness struct {
@@ -430,7 +545,11 @@ type harness struct {
 	// disconnect removes, whatever the peer asks later
 	stray []map[int]bool
 
-	ntOverflow, ntRemoved bool
+	// envelopes taken and not yet acknowledged by MessageSent and Sent, oldest first
+	held     []*heldEnv
+	holdMode int // Hold of the take whose envelope is outstanding
+
+	ntOverflow, ntRemoved, ntRace bool
 	classes               map[string]bool
 	envelopes             int
 }
@@ -578,6 +697,10 @@ func (h *harness) doMsg(step int, op Op) *kit.Result {
 			continue
 		}
 		if e.Cancel {
+			if h.want[pi][ci] != nil && h.inflight(pi, ci) {
+				h.ntRace = true
+				h.classes["inflight:cancel"] = true
+			}
 			delete(h.want[pi], ci)
 			delete(h.dropped[pi], ci)
 			continue
@@ -589,6 +712,15 @@ func (h *harness) doMsg(step int, op Op) *kit.Result {
 			h.want[pi][ci] = w
 		}
 		delete(h.dropped[pi], ci)
+		if h.inflight(pi, ci) {
+			w.raced = true
+			h.ntRace = true
+			h.classes["inflight:re-request"] = true
+			if w.seq > 0 && w.have != (e.WantType == pb.Message_Wantlist_Have) {
+				h.classes["inflight:want-type-changed"] = true
+			}
+		}
+		w.seq++
 		w.prio = e.Priority
 		w.have = e.WantType == pb.Message_Wantlist_Have
 		if w.have {
@@ -1018,15 +1150,26 @@ func (h *harness) onEnvelope(step int, env *vb.Envelope) *kit.Result {
 			return fail("", "step %d: unknown presence type", step)
 		}
 	}
-	// model: what the answers mean for the peer's list (mirrors MessageSent; conservative:
-	// an entry is only dropped from the model when the engine must drop it too)
+	// model at build time: the tasks are popped (no longer pending); which want each answer
+	// belongs to. What the answers mean for the peer's list is applied when the network side
+	// calls MessageSent (settle), which is when the engine updates its ledger.
+	he := &heldEnv{env: env, pi: pi, wants: map[int]*mwant{}, seqs: map[int]int{}, active: map[int]bool{}}
+	for ci := range h.mayPend[pi] {
+		he.active[ci] = true
+	}
 	for _, b := range blks {
-		delete(h.want[pi], h.idx[b.Cid()])
-		delete(h.mayPend[pi], h.idx[b.Cid()])
-		delete(h.stray[pi], h.idx[b.Cid()])
+		ci := h.idx[b.Cid()]
+		he.blks = append(he.blks, ci)
+		he.active[ci] = true
+		if w := h.want[pi][ci]; w != nil {
+			he.wants[ci], he.seqs[ci] = w, w.seq
+		}
+		delete(h.mayPend[pi], ci)
+		delete(h.stray[pi], ci)
 	}
 	for _, bp := range pres {
 		ci := h.idx[bp.Cid]
+		he.active[ci] = true
 		delete(h.mayPend[pi], ci)
 		delete(h.stray[pi], ci)
 		w := h.want[pi][ci]
@@ -1034,18 +1177,74 @@ func (h *harness) onEnvelope(step int, env *vb.Envelope) *kit.Result {
 			continue
 		}
 		if bp.Type == pb.Message_Have {
-			if w.have && !w.everBlock {
-				delete(h.want[pi], ci)
-			} else {
-				w.ansPos = true
-			}
+			he.haves = append(he.haves, ci)
+			he.wants[ci], he.seqs[ci] = w, w.seq
+			w.ansPos = true
 		} else {
 			w.ansNeg = true
 		}
 	}
-	h.e.MessageSent(env.Peer, env.Message)
-	env.Sent()
+	h.held = append(h.held, he)
+	switch h.holdMode {
+	case 1:
+		h.classes["hold:messagesent-and-sent-later"] = true
+	case 2:
+		h.classes["hold:sent-later"] = true
+		h.settle(he, false)
+	default:
+		h.settle(he, true)
+	}
 	return nil
+}
+
+// inflight: an envelope for the peer that the network side has not yet reported Sent may hold
+// an active task for the CID.
+func (h *harness) inflight(pi, ci int) bool {
+	for _, he := range h.held {
+		if he.pi == pi && he.active[ci] {
+			return true
+		}
+	}
+	return false
+}
+
+// settle does the next thing server.taskWorker does with a taken envelope: MessageSent, then
+// Sent (both when both is set), and applies to the model what the answers mean for the peer's
+// list (mirrors MessageSent; conservative: an entry is only dropped from the model when the
+// engine must drop it too, i.e. when the peer has not asked for the CID again since the answer
+// was built - otherwise the model keeps the want, which only widens what may be sent).
+func (h *harness) settle(he *heldEnv, both bool) {
+	if !he.msgSent {
+		he.msgSent = true
+		cur := func(ci int) *mwant {
+			w := h.want[he.pi][ci]
+			if w == nil || w != he.wants[ci] || w.seq != he.seqs[ci] {
+				return nil
+			}
+			return w
+		}
+		for _, ci := range he.blks {
+			if cur(ci) != nil {
+				delete(h.want[he.pi], ci)
+			}
+		}
+		for _, ci := range he.haves {
+			if w := cur(ci); w != nil && w.have && !w.everBlock {
+				delete(h.want[he.pi], ci)
+			}
+		}
+		h.e.MessageSent(he.env.Peer, he.env.Message)
+		if !both {
+			return
+		}
+	}
+	he.env.Sent()
+	for i, x := range h.held {
+		if x == he {
+			h.held = append(h.held[:i:i], h.held[i+1:]...)
+			break
+		}
+	}
 }
 
 // poll collects an envelope that is ready on the pending one-time channel.
@@ -1066,9 +1265,10 @@ func (h *harness) poll(step int) (bool, *kit.Result) {
 	}
 }
 
-func (h *harness) take(step int) (bool, *kit.Result) {
+func (h *harness) take(step int, hold int) (bool, *kit.Result) {
 	synctest.Wait()
 	if h.pending == nil {
+		h.holdMode = hold
 		select {
 		case ch, ok := <-h.e.Outbox():
 			if !ok {
@@ -1135,7 +1335,11 @@ func runBubble(c Case) kit.Result {
 			}
 			r = h.doMsg(step, op)
 		case "take":
-			_, r = h.take(step)
+			_, r = h.take(step, op.Hold)
+		case "ack":
+			if len(h.held) > 0 {
+				h.settle(h.held[op.Idx%len(h.held)], op.Both)
+			}
 		case "add":
 			var nb []blocks.Block
 			for _, ci := range op.Cids {
@@ -1150,6 +1354,10 @@ func runBubble(c Case) kit.Result {
 						if !w.denied {
 							w.maybeShed = len(h.mayPend[pi]) >= h.c.Cfg.Limit
 							h.mayPend[pi][ci] = true
+							if h.inflight(pi, ci) {
+								w.raced = true
+								h.classes["inflight:block-added"] = true
+							}
 						}
 					}
 				}
@@ -1201,11 +1409,15 @@ func runBubble(c Case) kit.Result {
 
 	// drain: at quiescence every answerable accepted want has been answered
 	end := len(c.Ops)
+	h.holdMode = 0
+	for len(h.held) > 0 {
+		h.settle(h.held[0], true)
+	}
 	for i := 0; ; i++ {
 		if i > 40*len(h.pool) {
 			return kit.Result{Err: fmt.Errorf("harness: drain does not terminate"), Known: "harness"}
 		}
-		got, r := h.take(end)
+		got, r := h.take(end, 0)
 		if r != nil {
 			return *r
 		}
@@ -1239,6 +1451,10 @@ func runBubble(c Case) kit.Result {
 				h.classes["liveness-exempt:queue-bound"] = true
 				continue
 			}
+			if w.raced {
+				h.classes["liveness-exempt:answer-in-flight"] = true
+				continue
+			}
 			if h.present(ci) {
 				if h.c.Sizes[ci] == 0 {
 					continue // see the empty-block clause
@@ -1252,7 +1468,7 @@ func runBubble(c Case) kit.Result {
 		}
 	}
 
-	res := kit.Result{NonTrivial: h.ntOverflow || h.ntRemoved}
+	res := kit.Result{NonTrivial: h.ntOverflow || h.ntRemoved || h.ntRace}
 	if h.envelopes > 0 {
 		h.classes["envelopes>0"] = true
 	}
@@ -1317,6 +1533,12 @@ func sample(c Case) any {
 			s = fmt.Sprintf("%s %v", op.Kind, op.Cids)
 		case "disconnect":
 			s = fmt.Sprintf("disconnect p%d", op.Peer)
+		case "take":
+			if op.Hold != 0 {
+				s = fmt.Sprintf("take hold=%d", op.Hold)
+			}
+		case "ack":
+			s = fmt.Sprintf("ack #%d both=%v", op.Idx, op.Both)
 		}
 		ops = append(ops, s)
 	}
@@ -1325,7 +1547,7 @@ func sample(c Case) any {
 
 var spec = kit.Spec[Case]{
 	Prop: "C36", Name: "main",
-	Rule:  "decision engine in a synctest bubble: generated script (<=30/45 steps) of want-list messages (full/incremental, ties, cancels, duplicate, identity and oversize CIDs) from 1-3 peers, directed overflow bursts (a message filling the list to the limit with 0..limit block-less wants, then one message of 1..limit newcomers mostly with blocks and higher priority), blockstore add+notify/remove, take-envelope(+MessageSent+Sent), disconnect, tick; limits 1..32, replace size 0/8/1024, filter, maxCidSize, targetMessageSize; per-envelope oracle, want-list subset/limit invariant, overflow predicates P1-P5, answered-at-quiescence; non-trivial = an overflow with >=2 distinct priorities among the existing entries, or a block removed while an accepted want for it was unanswered",
+	Rule:  "decision engine in a synctest bubble: generated script (<=30/45 steps) of want-list messages (full/incremental, ties, cancels, duplicate, identity and oversize CIDs) from 1-3 peers, directed overflow bursts (a message filling the list to the limit with 0..limit block-less wants, then one message of 1..limit newcomers mostly with blocks and higher priority), directed in-flight races (request for a CID, its answer taken but MessageSent and/or Sent held back, re-request with the other/same want type, cancel, block churn or further takes for the same CID before and after the acknowledgements), blockstore add+notify/remove, take-envelope with MessageSent+Sent at once or as separate later ack steps (several envelopes may be in flight, acknowledged in any order), disconnect, tick; limits 1..32, replace size 0/8/1024, filter, maxCidSize, targetMessageSize; per-envelope oracle, want-list subset/limit invariant, overflow predicates P1-P5, answered-at-quiescence; non-trivial = an overflow with >=2 distinct priorities among the existing entries, a block removed while an accepted want for it was unanswered, or a re-request/cancel for a CID arriving while an answer for it is in flight",
 	Quick: 2500, Thorough: 12000,
 	Gen: gen, Run: run, Sample: sample, Journal: true,
 }
